@@ -469,11 +469,70 @@ def run(ctx):
                                             pj = rr[2] if rr[0] in ("param", "local") else rr[3] if rr[0] in ("call", "agg") else []
                                             if any(p in ("start_byte", "end_byte") for p in pj):
                                                 span_fields = True
-                    ctx.inst("C01.R11", "%s#str-slice[%d]" % (n.replace(CORE, ""), k), False if span_fields else None,
-                             "string sliced with computed bounds%s" % (" taken from an ast::Span: the span may belong to another text (a function body), so the slice can be out of range" if span_fields else " (value-dependent: not decided)"), fn.loc(b))
+                    # a user string (Value::as_string) sliced at offsets computed from user numbers: the offsets are character
+                    # counts at best, the slice wants byte offsets on character boundaries
+                    recv_roots = fn.trace(fn.term(b)["args"][0])
+                    user_string = bool(recv_roots) and any(r[0] == "call" and r[1].endswith("Value::as_string") for r in recv_roots)
+                    user_number = False
+                    for r in roots:
+                        if r[0] == "agg":
+                            for s_ in fn.stmts(r[2]):
+                                if s_["k"] == "assign" and s_["rv"]["k"] == "agg" and "ops::range::Range" in s_["rv"].get("adt", ""):
+                                    for o in s_["rv"]["ops"]:
+                                        if any(rr[0] == "call" and rr[1].endswith("Value::as_number") for rr in fn.trace(o)):
+                                            user_number = True
+                    definite = span_fields or (user_string and user_number)
+                    why = " (value-dependent: not decided)"
+                    if span_fields:
+                        why = " taken from an ast::Span: the span may belong to another text (a function body), so the slice can be out of range"
+                    elif user_string and user_number:
+                        why = ": a user string is sliced at byte offsets computed from user numbers; an offset inside a multi-byte character panics (`byte index is not a char boundary`)"
+                    ctx.inst("C01.R11", "%s#str-slice[%d]" % (n.replace(CORE, ""), k), False if definite else None,
+                             "string sliced with computed bounds%s" % why, fn.loc(b))
                     k += 1
     ctx.inst("C01.R11", "scan", True, "%d computed-offset string slices in reachable code" % n11, None)
     ctx.inst("C01.R11", "control#constant-prefix-slices", ctrl >= 1, "the pattern matches %d constant-bound slices (`0x`/`#` prefixes in the AST builder): the rule is not vacuous" % ctrl, None)
+
+    # ---------------- R12 unwrap / expect on results that depend on input values
+    ctx.rule("C01.R12", "no unwrap/expect on an Option/Result produced by a routine that fails for some input VALUE (non-finite number to JSON, text to number, out-of-range conversions, checked arithmetic, parsing stored function text): such failures are reported as errors", floor=1)
+    VALUE_FALLIBLE = [
+        (r"^serde_json::number::Number::from_f64$", "None for NaN and infinities"),
+        (r"::from_str_radix$", "Err on digits outside the radix / out of range"),
+        (r"as core::str::traits::FromStr>::from_str$|^core::str::<impl str>::parse", "Err on text that is not a number"),
+        (r"^core::char::methods::<impl char>::(from_u32|from_digit)$|^core::char::convert::", "None outside the valid range"),
+        (r"as core::convert::TryFrom<.*>>::try_from$|as core::convert::TryInto<.*>>::try_into$", "Err when the value does not fit"),
+        (r"::checked_(add|sub|mul|div|rem|pow|neg|shl|shr)$", "None on overflow / division by zero"),
+        (r"^serde_json::(de::)?from_(str|slice|value|reader)", "Err on malformed input"),
+        (r"^blots_core::values::SerializableValue::to_value$|^blots_core::parser::get_pairs$|^blots_core::expressions::pairs_to_expr", "Err when stored or given source text does not parse"),
+        (r"^(core::str::converts|alloc::string::String)::from_utf8", "Err on invalid UTF-8 produced by byte slicing"),
+    ]
+    UNWRAPS = ("core::option::Option::<T>::unwrap", "core::option::Option::<T>::expect", "core::result::Result::<T, E>::unwrap", "core::result::Result::<T, E>::expect")
+    n12 = 0
+    for n in local:
+        fn = M.Fn(cg.fns[n], n)
+        k = 0
+        for b in fn.call_blocks():
+            if (fn.callee(b) or "") not in UNWRAPS:
+                continue
+            n12 += 1
+            roots = fn.trace(fn.term(b)["args"][0])
+            for r in roots:
+                if r[0] != "call":
+                    continue
+                why = next((w for pat, w in VALUE_FALLIBLE if re.search(pat, r[1])), None)
+                if why is None:
+                    continue
+                discharged = False
+                if r[1].endswith("Number::from_f64"):
+                    # accepted idiom: the call is dominated by an is_finite() test of the same number that exits otherwise
+                    arg_roots = fn.trace(fn.term(r[2])["args"][0])
+                    for cb in fn.calls_matching(lambda d: d.endswith("f64>::is_finite") or d.endswith("impl f64>::is_finite")):
+                        if fn.dominates(cb, r[2]) and M_root_eq(fn.trace(fn.term(cb)["args"][0]), arg_roots):
+                            discharged = True
+                ctx.inst("C01.R12", "%s#%s[%d]" % (n.replace(CORE, ""), H.last(r[1].split("<")[0]) or r[1][-24:], k), discharged,
+                         "%s of the result of %s, which is %s" % (H.last(fn.callee(b)), r[1], why), fn.loc(b))
+                k += 1
+    ctx.inst("C01.R12", "scan", True, "%d unwrap/expect sites in reachable code were traced to the call that produced their operand" % n12, None)
 
     # ---------------- R10 table lookups that `expect`
     ctx.rule("C01.R10", "operator_info's expect is discharged: every BinaryOp variant has exactly one row in PRECEDENCE_TABLE", floor=26)
